@@ -231,7 +231,12 @@ pub fn threads() -> usize {
 pub fn run_batch(prop: &dyn Prop, tier: Tier, seed: u64, budget_s: u64) -> BatchResult {
     let cs = prop.cases(tier, seed);
     let n_enum = cs.enumerated.len();
-    let total = n_enum + cs.random;
+    let mut total = n_enum + cs.random;
+    // deterministic cap (used by the determinism selftest): a prefix of the same case sequence
+    let stride: usize = std::env::var("VERIF_CASE_STRIDE").ok().and_then(|s| s.parse().ok()).unwrap_or(1).max(1);
+    if let Some(maxc) = std::env::var("VERIF_MAX_CASES").ok().and_then(|s| s.parse::<usize>().ok()) {
+        total = total.min(maxc * stride);
+    }
     let next = AtomicUsize::new(0);
     let stop = AtomicBool::new(false);
     let results: Mutex<BTreeMap<usize, (Value, Outcome)>> = Mutex::new(BTreeMap::new());
@@ -244,7 +249,7 @@ pub fn run_batch(prop: &dyn Prop, tier: Tier, seed: u64, budget_s: u64) -> Batch
                 if stop.load(Ordering::SeqCst) {
                     break;
                 }
-                let i = next.fetch_add(1, Ordering::SeqCst);
+                let i = next.fetch_add(stride, Ordering::SeqCst);
                 if i >= total {
                     break;
                 }
@@ -271,6 +276,7 @@ pub fn run_batch(prop: &dyn Prop, tier: Tier, seed: u64, budget_s: u64) -> Batch
     });
     let outcomes = results.into_inner().unwrap();
     let done = outcomes.len();
+    let total = if stride > 1 { (total + stride - 1) / stride } else { total };
     BatchResult {
         exhaustive: cs.exhaustive && done == total,
         outcomes,
